@@ -23,9 +23,9 @@ type NativeCase struct {
 }
 
 type NativeResult struct {
-	Status  string `json:"status"` // pass, assert, panic, assume
-	Msg     string `json:"msg"`
-	Observe []Obs  `json:"observe"`
+	Status  string   `json:"status"` // pass, assert, panic, assume
+	Msg     string   `json:"msg"`
+	Observe []Obs    `json:"observe"`
 	Known   []string `json:"known_hit"`
 }
 
